@@ -44,8 +44,12 @@ def randcase(rng, s):
 
 def gen_case(rng, odd=False):
     pool = [rand_path(rng) for _ in range(6)]
-    prefixes = [rng.choice(["pre", "pre/", "out/dir", "a", "p\\q", "src/"]) for _ in range(2)]
+    # (absolute prefixes too: os.path.join keeps a leading slash; a look-alike relative path must not stand in for it)
+    prefixes = [rng.choice(["pre", "pre/", "out/dir", "a", "p\\q", "src/", "/srv/out", "/srv/out/", "/", "srv/out"]) for _ in range(2)]
     names = ["item", "other", "third"][: rng.randrange(1, 4)]
+    if rng.random() < 0.3:
+        # step names that differ only in case are different steps
+        names += [rng.choice(["Other", "ITEM", "Third", "Item"])]
     links = {}
     base = rand_amap(rng, pool, prefixes)
     for n in names:
